@@ -277,6 +277,37 @@ def shrinking_progress(F, fn, header, body):
     return out
 
 
+def reslice_progress(fn, header, body):
+    """blocks of a loop that replace the text being searched by a strictly shorter tail of itself: `rest = &rest[at + k..]` with
+    k >= 1 (a constant, or the length of the pattern that was found): every turn of the loop that passes such a block has
+    consumed at least one byte of a finite text"""
+    out = set()
+    from rules.shared import LocalFlow
+    lf = None
+    for b, t in fn.calls(body):
+        n = callee_name(t)
+        if not (psc.is_index_call(n) and 'for str' in n and len(t['args']) == 2):
+            continue
+        d = fn.def_rvalue(t['args'][1])
+        if not (d and d[0] == 'assign' and d[3]['k'] == 'aggregate' and str(d[3].get('adt', '')).endswith('RangeFrom') and d[3]['ops']):
+            continue
+        st = sym(fn, d[3]['ops'][0])
+        if st[0] == 'checked':
+            st = ('binop', st[1], st[2], st[3])
+        if not (st[0] == 'binop' and st[1] == 'Add'):
+            continue
+        k = strip(st[3])
+        grows = (k[0] == 'int' and k[1] >= 1) or (k[0] == 'len') or (k[0] == 'call' and k[1].endswith('str>::len'))
+        if not grows:
+            continue
+        # the tail goes back into a variable of the loop (assigned more than once: before the loop and here)
+        lf = lf or LocalFlow(fn)
+        fwd = lf.forward(t['dest']['local'])
+        if any(len(fn.defs().get(l, [])) > 1 for l in fwd):
+            out.add(b)
+    return out
+
+
 def cycle_without(fn, header, body, removed):
     """is there a cycle through `header` inside `body` that avoids the `removed` blocks"""
     if header in removed:
@@ -376,6 +407,7 @@ def check(ctx, rep, rule):
                                 removed.add(b)
             removed |= counted_progress(fn, header, body)
             removed |= shrinking_progress(F, fn, header, body)
+            removed |= reslice_progress(fn, header, body)
             cyc = cycle_without(fn, header, body, removed)
             construct = 'loop#%d' % ordn
             rep.ob(cyc is None, rule, key, construct,
